@@ -1,3 +1,93 @@
 import Mrpro.Model.Ops
+import Mrpro.Lemmas.Basic
+import Mrpro.Lemmas.Adjoint
+/-! # C01 — adjoint identity ⟨A u, v⟩ = ⟨u, Aᴴ v⟩
+
+For each elementary operator the model has the *two code paths* of the library
+(`forward`, `adjoint`).  Each theorem says: for every size / configuration and all `u`, `v`
+over any commutative star ring (ℚ, ℝ, ℂ, Gaussian rationals …) the two code paths are adjoint.
+Proofs of the statements are in `Mrpro/Lemmas/Adjoint.lean`; this file only states them. -/
 namespace C01
+open M
+
+variable {K : Type} [CommRing K] [StarRing K]
+
+/-- centred zero-padding / cropping: `zero_pad_or_crop(·, b)` and `zero_pad_or_crop(·, a)` are
+adjoint for every pair of sizes (either may be the larger, either parity). -/
+theorem padCrop_adjoint (a b : Nat) (x y : Nat → K) :
+    inner b (padCrop a b x) y = inner a x (padCrop b a y) :=
+  M.padCrop_adjoint a b x y
+
+/-- gather by index and scatter-**add** by index are adjoint for *every* index map: repeated
+samples, samples outside the grid (`none` / `≥ G`), any order. -/
+theorem gather_scatterAdd_adjoint (S G : Nat) (idx : Nat → Option Nat) (x y : Nat → K) :
+    inner S (gather G idx x) y = inner G x (scatterAdd S idx y) :=
+  M.gather_scatterAdd_adjoint S G idx x y
+
+/-- witness: last-write-wins scatter (the behaviour of `Tensor.scatter_`, shipped before the
+`fix:` commit) is *not* the adjoint of gather as soon as a grid point is sampled twice. -/
+theorem scatterLast_not_adjoint :
+    ∃ (idx : Nat → Option Nat) (x y : Nat → Int),
+      inner 2 (gather 1 idx x) y ≠ inner 1 x (scatterLast 2 idx y) :=
+  M.scatterLast_not_adjoint
+
+/-- 3-tap correlation with kernel `(k0,k1,k2)` and correlation with the flipped kernel are adjoint,
+for zero and for circular boundary handling and every length `n ≥ 1`… (real kernels: `star k = k`). -/
+theorem corr3_adjoint (circular : Bool) (k0 k1 k2 : K) (h0 : star k0 = k0) (h1 : star k1 = k1)
+    (h2 : star k2 = k2) (n : Nat) (x y : Nat → K) :
+    inner n (corr3 circular k0 k1 k2 n x) y = inner n x (corr3 circular k2 k1 k0 n y) :=
+  M.corr3_adjoint circular k0 k1 k2 h0 h1 h2 n x y
+
+/-- element-wise multiplication (density compensation) -/
+theorem diagMul_adjoint (n : Nat) (d x y : Nat → K) :
+    inner n (diagMul d x) y = inner n x (diagMulConj d y) :=
+  M.diagMul_adjoint n d x y
+
+/-- coil sensitivities: expand to coils / conj-weighted sum over coils -/
+theorem sens_adjoint (coils n : Nat) (hn : 0 < n) (csm x y : Nat → K) :
+    inner (coils * n) (sensFwd n csm x) y = inner n x (sensAdj coils n csm y) :=
+  M.sens_adjoint coils n hn csm x y
+
+/-- matrix–vector product (default `EinsumOp` rule) -/
+theorem matVec_adjoint (m n : Nat) (A x y : Nat → K) :
+    inner m (matVec n A x) y = inner n x (matVecH m n A y) :=
+  M.matVec_adjoint m n A x y
+
+/-- a permutation of entries (`RearrangeOp`) and its inverse -/
+theorem permute_adjoint (n : Nat) (σ τ : Nat → Nat) (hσ : ∀ i, i < n → σ i < n) (hτ : ∀ i, i < n → τ i < n)
+    (h1 : ∀ i, i < n → τ (σ i) = i) (h2 : ∀ i, i < n → σ (τ i) = i) (x y : Nat → K) :
+    inner n (permute σ x) y = inner n x (permute τ y) :=
+  M.permute_adjoint n σ τ hσ hτ h1 h2 x y
+
+/-- `fftshift` and `ifftshift` are adjoint (inverse permutations), either parity -/
+theorem fftshift_adjoint (n : Nat) (x y : Nat → K) :
+    inner n (fftshift n x) y = inner n x (ifftshift n y) :=
+  M.fftshift_adjoint n x y
+
+/-- the DFT code path of `forward` and the inverse-DFT code path of `adjoint` are adjoint for every
+twiddle table `w` and real normalisation constant `c`. -/
+theorem dft_adjoint (n : Nat) (c : K) (hc : star c = c) (w : Nat → K) (x y : Nat → K) :
+    inner n (dft n c w x) y = inner n x (idft n c w y) :=
+  M.dft_adjoint n c hc w x y
+
+/-- the centred transform of `FastFourierOp`: `fftshift ∘ fft ∘ ifftshift` vs `fftshift ∘ ifft ∘ ifftshift`
+(the code uses the same shift order in both paths, which is right because `fftshift` and
+`ifftshift` are mutually adjoint). -/
+theorem centredDft_adjoint (n : Nat) (c : K) (hc : star c = c) (w : Nat → K) (x y : Nat → K) :
+    inner n (centredDft n c (fun t => w t) x) y = inner n x (centredIdft n c (fun t => w t) y) :=
+  M.centredDft_adjoint n c hc w x y
+
+/-- lifting: if `(op, opH)` is an adjoint pair between lengths `n` and `m`, then applying them along one
+axis of an N-D tensor `[outer, ·, inner]` is an adjoint pair — for every batch layout. -/
+theorem applyAlong_adjoint (outer inner n m : Nat) (op opH : (Nat → K) → (Nat → K))
+    (h : ∀ x y, M.inner m (op x) y = M.inner n x (opH y)) (x y : Nat → K) :
+    M.inner (outer * m * inner) (applyAlong inner n m op x) y
+      = M.inner (outer * n * inner) x (applyAlong inner m n opH y) :=
+  M.applyAlong_adjoint outer inner n m op opH h x y
+
+/-- non-vacuity: the hypotheses of `permute_adjoint` hold for a non-trivial permutation -/
+example : ∃ σ τ : Nat → Nat, (∀ i, i < 3 → σ i < 3) ∧ (∀ i, i < 3 → τ (σ i) = i) ∧ σ 0 ≠ 0 :=
+  ⟨fun i => (i + 1) % 3, fun i => (i + 2) % 3, by intro i _; show (i + 1) % 3 < 3; omega,
+    by intro i h; show ((i + 1) % 3 + 2) % 3 = i; omega, by decide⟩
+
 end C01
